@@ -36,14 +36,14 @@ PROPOSED_FINDINGS = [
                  "type": "SO", "op": "encnew uper (list (int 1) (int 9))", "expect": "^CRASH .*constr_SET_OF.c"},
      "matcher": "syntax uper or der, SET OF with an element the element encoder refuses; C dies inside constr_SET_OF.c with a "
                 "null pointer access"},
-    {"id": "F70", "property": "C07", "status": "known",
+    {"id": "F72", "property": "C07", "status": "known",
      "what": "SET_OF_encode_uper swallows a callback failure: `if(asn_put_many_bits(...) < 0) break;` leaves only the inner loop, "
              "the encoder returns success with bytes missing (reported size != delivered) and asn_encode aborts on "
              "assert(er.encoded == -1)",
      "witness": {"module": "M DEFINITIONS AUTOMATIC TAGS ::= BEGIN SO ::= SET OF INTEGER (0..255) END",
-                 "type": "SO", "op": "enccb uper 0 (list (int 1) (int 2) (int 3))", "expect": "^CRASH .*asn_encode: Assertion `er.encoded == -1'"},
+                 "type": "SO", "op": "enccb uper 0 (list (int 0) (int 1) (int 2) (int 3) (int 4) (int 5) (int 6) (int 7) (int 8) (int 9) (int 10) (int 11) (int 12) (int 13) (int 14) (int 15) (int 16) (int 17) (int 18) (int 19) (int 20) (int 21) (int 22) (int 23) (int 24) (int 25) (int 26) (int 27) (int 28) (int 29) (int 30) (int 31) (int 32) (int 33) (int 34) (int 35) (int 36) (int 37) (int 38) (int 39))", "expect": "^CRASH .*asn_encode: Assertion `er.encoded == -1'"},
      "matcher": "syntax uper, type contains SET OF, callback failure injected, uper_encode itself reports success (encraw k: ret >= 0)"},
-    {"id": "F71", "property": "C07", "status": "known",
+    {"id": "F73", "property": "C07", "status": "known",
      "what": "NULL_encode_der ends with ASN__ENCODED_OK even when der_write_tags failed, which clears failed_type: "
              "asn_encode_internal then sets ENOENT and asn_encode aborts on assert(errno == EBADF) when the callback fails "
              "inside a NULL",
@@ -51,13 +51,14 @@ PROPOSED_FINDINGS = [
                  "type": "N", "op": "enccb der 0 (null)", "expect": "^CRASH .*asn_encode: Assertion `errno == EBADF'"},
      "matcher": "syntax der, type contains NULL, callback failure injected, der_encode returns -1 with failed_type NULL "
                 "(encraw k: ret=-1 ft=null)"},
-    {"id": "F72", "property": "C07", "status": "known",
-     "what": "overrun_encoder_cb / dynamic_encoder_cb call memcpy(dst, NULL, 0) when an encoder emits the empty contents of a "
-             "zero-initialised OCTET STRING-like member (buf == NULL, size == 0): undefined behaviour (UBSan: null pointer "
-             "passed as argument 2), harmless on common libcs",
-     "witness": {"module": "M DEFINITIONS AUTOMATIC TAGS ::= BEGIN S ::= SEQUENCE { a OCTET STRING, b BOOLEAN } END",
-                 "type": "S", "op": "encnew der (seq (b (bool t)))", "expect": "^CRASH .*asn_application.c.*null pointer passed as argument 2"},
-     "matcher": "structure with a zero-initialised (omitted, inline) buf/size primitive; UBSan report in asn_application.c memcpy"},
+    {"id": "F78", "property": "C07", "status": "known",
+     "what": "BIT_STRING_encode_oer never terminates when a fixed-size BIT STRING (SIZE(n)) value holds fewer than ceil(n/8) octets: "
+             "`while(trailing_zeros > 0)` emits zero padding without ever decrementing trailing_zeros (endless callback "
+             "invocations; asn_encode_to_new_buffer grows until allocation fails and then spins)",
+     "witness": {"module": "M DEFINITIONS AUTOMATIC TAGS ::= BEGIN B ::= BIT STRING (SIZE(8)) END",
+                 "type": "B", "op": "encraw oer -1 (bs - 0)", "expect": "^HANG runaway"},
+     "matcher": "syntax oer, type contains BIT STRING, invalid (too short / zero-initialised) value, the harness callback sees more "
+                "than 2^20 invocations and the last chunk is all zeros"},
 ]
 
 
@@ -96,9 +97,6 @@ def str_bytes(k, s):
     if k == "UTF8String": return s.encode("utf-8")
     return s.encode("latin1")
 
-BUF_KINDS = set(genmod.STRING_KINDS) | {"OCTET STRING", "BIT STRING", "OBJECT IDENTIFIER", "RELATIVE-OID", "UTCTime",
-                                         "GeneralizedTime", "REAL"}
-
 
 def invalid_variants(t, v, env, rng, depth=0):
     """yields (value with one planted defect, kind).  Every position of the value is visited."""
@@ -134,8 +132,10 @@ def invalid_variants(t, v, env, rng, depth=0):
             ch = (al[0][0] if isinstance(al[0], tuple) else al[0]) if al else ("1" if k == "NumericString" else "A")
             return Raw("(os %s)" % hx(str_bytes(k, ch * n)))
         if sz and not sz["ext"]:
-            if sz["hi"] is not None and sz["hi"] < 400: yield mk(sz["hi"] + 1), "size-long"
-            if sz["lo"]: yield mk(sz["lo"] - 1), "size-short" if sz["hi"] is not None else "size-short-semi"
+            nv = "-notvisible" if k == "UTF8String" else ""      # X.691: not a known-multiplier type, SIZE is not PER-visible
+            if sz["hi"] is not None and sz["hi"] < 400: yield mk(sz["hi"] + 1), "size-long" + nv
+            if k == "BIT STRING": nv = "-bits"      # asn1c pads a short BIT STRING with zero bits up to the lower bound (F19 family)
+            if sz["lo"]: yield mk(sz["lo"] - 1), ("size-short" if sz["hi"] is not None else "size-short-semi") + nv
         if k in ("IA5String", "VisibleString", "PrintableString", "NumericString") and v:
             bad = {"IA5String": 0x80, "VisibleString": 0x1f, "PrintableString": 0x2a, "NumericString": 0x41}[k]
             b = bytearray(str_bytes(k, v)); b[len(b) // 2] = bad
@@ -153,7 +153,7 @@ def invalid_variants(t, v, env, rng, depth=0):
                 for x, kind in invalid_variants(c["type"], v[c["id"]], env, rng, depth + 1):
                     w = dict(v); w[c["id"]] = x
                     yield w, kind
-            is_addition = t.get("ext") is not None and ci >= t["ext"]      # extension additions are optional in C
+            is_addition = t.get("ext") is not None and ci >= t["ext"]     # extension additions are optional in C
             if c.get("opt") is None and c["id"] in v and not is_addition:
                 w = dict(v); del w[c["id"]]
                 ck = genmod.resolve_kind(c["type"], env)
@@ -312,16 +312,16 @@ def match_known(ctx, case, key, out):
                 return ctx.match_finding(lambda f: f["id"] == "F9")
         if case.syn == "uper" and kind == "cb" and "SET OF" in case.feats and "asn_encode: Assertion `er.encoded == -1'" in o \
            and rk and int(rk["ret"]) >= 0:
-            return ctx.match_finding(lambda f: f["id"] == "F70")
+            return ctx.match_finding(lambda f: f["id"] == "F72")
         if case.syn == "der" and kind == "cb" and "NULL" in case.feats and "asn_encode: Assertion `errno == EBADF'" in o \
            and rk and rk["ret"] == "-1" and rk["ft"] == "null":
-            return ctx.match_finding(lambda f: f["id"] == "F71")
+            return ctx.match_finding(lambda f: f["id"] == "F73")
         if case.syn in ("uper", "der") and "SET OF" in case.feats and "constr_SET_OF.c" in o and "null pointer" in o and not case.valid:
             return ctx.match_finding(lambda f: f["id"] == "F7")
-        if not case.valid and "omit:" in case.kind and kind in ("new", "buf") and "asn_application.c" in o \
-           and "null pointer passed as argument 2" in o:
-            return ctx.match_finding(lambda f: f["id"] == "F72")
         return None
+    if o.startswith("HANG runaway") and case.syn == "oer" and "BIT STRING" in case.feats and not case.valid \
+       and re.search(r"last chunk (00)+$", o):
+        return ctx.match_finding(lambda f: f["id"] == "F78")
     if kind == "new" and o.startswith("buf=nonnull encoded=-1"):
         return ctx.match_finding(lambda f: f["id"] == "F39")
     return None
@@ -340,6 +340,7 @@ def evaluate(ctx, st, m, txt, opts, cases):
         allouts = [("raw", c.raw), ("clean", c.clean), ("new", c.new)] + [(("buf", n), o) for n, o in c.buf.items()] \
             + [(("cb", k), o) for k, o in c.cb.items()] + [(("rawk", k), o) for k, o in c.rawk.items()]
         for key, out in allouts:
+            if key not in c.lines: continue                      # operation not run (runaway encoder)
             if out is not None and (out.startswith("load-error") or out in ("bad-op", "no-type", "no-such-type")):
                 viol("harness:" + out[:30], c, key, out); fatal = True; continue
             if not dead(out): continue
@@ -465,6 +466,12 @@ def process_module(ctx, st, m, items, opts=DEFAULT_OPTS):
         exe = b.build()
     except bundle.Asn1cFailed as e:
         ctx.log("asn1c rejected module", m["name"], e.out.strip().split("\n")[0][:160]); b.cleanup(); return False
+    except build.BuildError as e:
+        # F43 (C10): a negative DEFAULT makes asn1c emit the identifier `asn_DFL_<n>_cmp_-3`; nothing of C07 to see there
+        if re.search(r"asn_DFL_\d+_(cmp|set)_-", str(e)):
+            ctx.log("module", m["name"], "skipped: generated C does not compile (negative DEFAULT identifier, F43)")
+            st.skipped["F43-module"] += 1; b.cleanup(); return False
+        b.cleanup(); raise
     try:
         cases = []
         featc = {}
@@ -475,22 +482,26 @@ def process_module(ctx, st, m, items, opts=DEFAULT_OPTS):
                 if c01.skip_region(syn, feats, st.skipped): continue
                 if syn in ("xer", "cxer") and len(sx) > 20000: continue
                 cases.append(Case(tn, syn, sx, kind, valid, feats, syn in must))
-        # phase 1: raw run, clean callback run, new buffer
-        lines = []
-        for c in cases:
-            c.lines["raw"] = f"@{c.tn} encraw {c.syn} -1 {c.sx}"
+        # phase 0: the raw encoder run (its callback stops a runaway encoder: such cases get no further operations,
+        # the library's own callbacks would loop forever)
+        t0 = time.time()
+        for c in cases: c.lines["raw"] = f"@{c.tn} encraw {c.syn} -1 {c.sx}"
+        outs0 = run_safe(ctx, exe, [c.lines["raw"] for c in cases], 120)
+        for c, o in zip(cases, outs0): c.raw = o
+        # phase 1: clean callback run, new buffer
+        lines = []; live = [c for c in cases if not dead(c.raw)]
+        for c in live:
             c.lines["clean"] = f"@{c.tn} enccb {c.syn} -1 {c.sx}"
             c.lines["new"] = f"@{c.tn} encnew {c.syn} {c.sx}"
-            lines += [c.lines["raw"], c.lines["clean"], c.lines["new"]]
-        t0 = time.time()
-        outs = run_safe(ctx, exe, lines, 300)
+            lines += [c.lines["clean"], c.lines["new"]]
+        outs = run_safe(ctx, exe, lines, 120)
         t1 = time.time()
-        for i, c in enumerate(cases):
-            c.raw, c.clean, c.new = outs[3 * i: 3 * i + 3]
+        for i, c in enumerate(live):
+            c.clean, c.new = outs[2 * i: 2 * i + 2]
         # phase 2: buffer sizes and failing callback indices
         lines = []; where = []
         kcap = 10 if ctx.quick else 100
-        for c in cases:
+        for c in live:
             if c.clean is None or not c.clean.startswith("ret="): continue
             kv = parse_kv(c.clean)
             ret = int(kv["ret"])
@@ -511,16 +522,16 @@ def process_module(ctx, st, m, items, opts=DEFAULT_OPTS):
             for k in ks:
                 c.lines[("cb", k)] = f"@{c.tn} enccb {c.syn} {k} {c.sx}"; lines.append(c.lines[("cb", k)]); where.append((c, "cb", k))
                 c.lines[("rawk", k)] = f"@{c.tn} encraw {c.syn} {k} {c.sx}"; lines.append(c.lines[("rawk", k)]); where.append((c, "rawk", k))
-        outs2 = run_safe(ctx, exe, lines, 600)
+        outs2 = run_safe(ctx, exe, lines, 240)
         t2 = time.time()
         for (c, what, x), o in zip(where, outs2):
             {"buf": c.buf, "cb": c.cb, "rawk": c.rawk}[what][x] = o
-        st.n_lines += 3 * len(cases) + len(lines)
+        st.n_lines += len(cases) + 2 * len(live) + len(lines)
         evaluate(ctx, st, m, txt, opts, cases)
         t3 = time.time()
         correspond(ctx, st, m, txt, opts, cases)
         if os.environ.get("C07_TIMES"):
-            ncr = sum(1 for o in outs + outs2 if dead(o))
+            ncr = sum(1 for o in outs0 + outs + outs2 if dead(o))
             ctx.log(f"module {m['name']}: cases={len(cases)} phase1={t1-t0:.1f}s ({3*len(cases)} lines) phase2={t2-t1:.1f}s "
                     f"({len(lines)} lines) crashes={ncr} eval={t3-t2:.1f}s K={time.time()-t3:.1f}s")
     finally:
@@ -542,13 +553,14 @@ INV_TEXT = """INV DEFINITIONS AUTOMATIC TAGS ::= BEGIN
   SO ::= SET OF INTEGER (0..255)
   N ::= NULL
   Z ::= SEQUENCE { a OCTET STRING, b BOOLEAN }
+  BF ::= BIT STRING (SIZE(16))
 END
 """
 
 
 def inv_module_cases():
     """fixed module compiled with -findirect-choice: NULL mandatory pointers (A.b is `struct B *b`, not OPTIONAL),
-    unselected / out-of-range CHOICE at every depth, the witness shapes of F7/F9/F70/F71/F72"""
+    unselected / out-of-range CHOICE at every depth, the witness shapes of F7/F9/F72/F73"""
     T = lambda k, **kw: dict(k=k, **kw)
     I = lambda lo, hi: T("INTEGER", cons=genmod.cons(lo, hi))
     types = [
@@ -567,6 +579,7 @@ def inv_module_cases():
         ("SO", T("SET OF", elem=I(0, 255), size=None)),
         ("N", T("NULL")),
         ("Z", T("SEQUENCE", comps=[{"id": "a", "type": T("OCTET STRING")}, {"id": "b", "type": T("BOOLEAN")}])),
+        ("BF", T("BIT STRING", size=genmod.cons(16, 16))),
     ]
     m = {"name": "INV", "tagdefault": "AUTOMATIC", "text": INV_TEXT, "types": types}
     allsyn = set(SYNTAXES)
@@ -611,7 +624,10 @@ def inv_module_cases():
     add("SO", "(list (int 1) (int 2) (int 3))", "valid", True); add("SO", "(list)", "valid", True)
     add("N", "(null)", "valid", True)
     add("Z", "(seq (a (os 0102)) (b (bool t)))", "valid", True)
-    add("Z", "(seq (b (bool t)))", "omit:OCTET_STRING", must=set())                       # F72 witness shape
+    add("Z", "(seq (b (bool t)))", "omit:OCTET_STRING", must=set())                       # cb(NULL, 0): F51 (C04) territory
+    add("BF", "(bs a5c3 0)", "valid", True)
+    add("BF", "(bs a5 0)", "size-short-bits", must=set())                                # F78 witness shape (OER never terminates)
+    add("BF", "(bs a5c3ff 0)", "size-long", must={"uper"})
     return m, items
 
 
@@ -679,7 +695,6 @@ def run(ctx):
         env = dict(m["types"])
         vg = genmod.ValGen(rng, env)
         items = []
-        nbuf_omit = 0
         for n, t in m["types"]:
             vals = pick_values(ctx, n, fixed[n] if fixed is not None else vg.values(t, nvals), fixed is not None)
             for v in vals:
@@ -693,10 +708,6 @@ def run(ctx):
                 for w, kind in invalid_variants(t, bv, env, rng):
                     sx = render(t, w, env)
                     if sx in seen: continue
-                    if kind.startswith("omit:") and kind[5:].replace("_", " ") in BUF_KINDS | {"INTEGER t"}:
-                        # F72 region (zero-initialised buf/size primitive): a few per module, each costs process restarts
-                        nbuf_omit += 1
-                        if nbuf_omit > int(os.environ.get("C07_OMIT", 2 if ctx.quick else 10)): continue
                     seen.add(sx); cnt += 1
                     items.append((n, sx, kind, False, MUST_FAIL.get(kind, set())))
                     if cnt >= nvar: break
